@@ -259,6 +259,23 @@ def run_case(drv, p):
             elif 'error' not in m:
                 res['disagreements'].append({'detail': f'{name}: implementation raises {type(e).__name__}, model answers {m}'})
             continue
+        # one metric object that has scored another data set of the same shape before (equally sized folds, validation then
+        # test set): the value is a function of the inputs of this call alone
+        if in_quantifier(name):
+            try:
+                mo = Metric.from_name(name)
+                if p['kind'] == 'reg':
+                    mo.compute(y_true_reg=torch.from_numpy(np.ascontiguousarray(y[::-1].copy())), y_pred=torch.from_numpy(np.ascontiguousarray(q[::-1].copy())))
+                else:
+                    yd = ((y.astype(np.int64) + 1) % K).astype(y.dtype)      # every label changed, same shape, same class set
+                    mo.compute(y_true_class=torch.from_numpy(yd), y_pred_proba=torch.from_numpy(np.ascontiguousarray(q)))
+                v2 = float(mo.compute(**tk(q)))
+                if not (v2 == v or (v2 != v2 and v != v)):
+                    res['failures'].append({'signature': f'C16:object-history:{name}',
+                                            'detail': f'{name}: a metric object that scored another data set of the same shape before returns {v2!r}, '
+                                                      f'a fresh object {v!r}'})
+            except Exception as e:
+                res['failures'].append({'signature': f'C16:raises:{type(e).__name__}', 'detail': f'{name}.compute on a re-used metric object: {e}'[:300]})
         if not in_quantifier(name):   # sklearn >= 1.9 answers NaN (older versions raise) when a class is absent
             if ('error' in m) != (v != v):
                 res['disagreements'].append({'detail': f'{name}: model answers {m}, implementation returns {v}'})
